@@ -199,16 +199,36 @@ func isAlphaNumeric(r byte) bool {
 var (
 	leadingOrTrailing_ = regexp.MustCompile("^_+|_+$")
 	consecutive_       = regexp.MustCompile("__+")
-	wordBoundary1      = regexp.MustCompile("([a-zA-Z])([A-Z][a-z])") // <letter>_<upper><lower>
-	wordBoundary2      = regexp.MustCompile("([a-zA-Z])([0-9])")      // <letter>_<digit>
-	wordBoundary3      = regexp.MustCompile("([0-9])([a-zA-Z])")      // <digit>_<letter>
 )
 
+// toUpperUnderscore turns an identifier into a placeholder name: an underscore
+// goes in at every word boundary,
+//
+//	<letter>_<upper><lower>,  <letter>_<digit>,  <digit>_<letter>.
+//
+// The boundaries are found on the string as it stands (the reference
+// implementation uses look-around): in timeToLive the 'o' both ends a word and
+// precedes the next one, so the name is TIME_TO_LIVE, not TIME_TOLIVE.
 func toUpperUnderscore(ident string) string {
 	ident = leadingOrTrailing_.ReplaceAllString(ident, "")
-	ident = consecutive_.ReplaceAllString(ident, "${1}_${2}")
-	ident = wordBoundary1.ReplaceAllString(ident, "${1}_${2}")
-	ident = wordBoundary2.ReplaceAllString(ident, "${1}_${2}")
-	ident = wordBoundary3.ReplaceAllString(ident, "${1}_${2}")
-	return strings.ToUpper(ident)
+	ident = consecutive_.ReplaceAllString(ident, "_")
+	var buf strings.Builder
+	for i := 0; i < len(ident); i++ {
+		if i > 0 {
+			var prev, ch = ident[i-1], ident[i]
+			switch {
+			case isAlpha(prev) && isUpper(ch) && i+1 < len(ident) && isLower(ident[i+1]),
+				isAlpha(prev) && isDigitByte(ch),
+				isDigitByte(prev) && isAlpha(ch):
+				buf.WriteByte('_')
+			}
+		}
+		buf.WriteByte(ident[i])
+	}
+	return strings.ToUpper(buf.String())
 }
+
+func isUpper(ch byte) bool     { return 'A' <= ch && ch <= 'Z' }
+func isLower(ch byte) bool     { return 'a' <= ch && ch <= 'z' }
+func isAlpha(ch byte) bool     { return isUpper(ch) || isLower(ch) }
+func isDigitByte(ch byte) bool { return '0' <= ch && ch <= '9' }
